@@ -604,6 +604,7 @@ class SArray:
                             f"according to the rule '{casting}'")
         if dtype == self.dtype and dtype.byteorder == self.dtype.byteorder and not copy:
             return self
+        # elements carry values, the byte order only matters in tobytes(): a byte-order change keeps the values
         same_repr = (dtype.kind == self.dtype.kind and dtype.itemsize == self.dtype.itemsize)
         if same_repr:
             out = self.a.copy(order="K") if copy else self.a
@@ -619,9 +620,12 @@ class SArray:
             order = "F" if (self.a.flags.f_contiguous and not self.a.flags.c_contiguous) else "C"
         elif order in (None, "K"):
             order = "C"
+        big = self.dtype.byteorder == ">" and n > 1
         for x in self.a.ravel(order=order):
             if isinstance(x, SBV) and x.is_concrete():
-                bs += list(builtins.int(z3.simplify(x.e).as_long()).to_bytes(n, "little"))
+                bs += list(builtins.int(z3.simplify(x.e).as_long()).to_bytes(n, "big" if big else "little"))
+            elif big:
+                bs += [Part(x, n - 1 - i, n) for i in range(n)]       # most significant byte first
             else:
                 bs += [Part(x, i, n) for i in range(n)]
         return SBytes(bs)
